@@ -246,6 +246,128 @@ fn halfway_variant(d: &Dec, r: &mut Rng, max_tail: usize) -> (Dec, &'static str)
     }
 }
 
+/// Is `x` (a non-zero natural number) within 2^-`slack` (relative) of a rounding
+/// boundary of a `mbits`-bit significand, i.e. do the `slack` bits below the
+/// rounding bit all agree (1000..0 / 0111..1 patterns)? Such values defeat the
+/// 64-bit middle stage and reach the big-integer tier.
+fn near_halfway(x: &Nat, mbits: usize, slack: usize) -> bool {
+    let bl = x.bit_length();
+    if bl < mbits + 1 + slack {
+        // fewer bits than significand + rounding bit + slack: exact tie iff it has exactly mbits+1 bits and is odd
+        return bl == mbits + 1 && x.bit(0);
+    }
+    let round = x.bit(bl - mbits - 1);
+    (0..slack).all(|i| x.bit(bl - mbits - 2 - i) != round)
+}
+
+/// Mantissas on a 64-bit limb boundary of the big integer: M = c * 2^(64k) +- delta
+/// with a tiny delta, times 10^q with q chosen so that the value is (nearly) a
+/// rounding boundary. Their big integers consist of runs of all-zero or all-ones
+/// limbs: carries ripple across many limbs and out of the top one, partial
+/// products of long multiplication vanish, shifts move nothing but zeros.
+pub fn limb_boundary_deep(r: &mut Rng) -> Input {
+    limb_boundary_impl(r, false, true)
+}
+
+fn limb_boundary(r: &mut Rng, short: bool) -> Input {
+    limb_boundary_impl(r, short, false)
+}
+
+fn limb_boundary_impl(r: &mut Rng, short: bool, force_deep: bool) -> Input {
+    let is_f64 = force_deep || !short || r.chance(1, 3);
+    let mbits = if is_f64 { 53 } else { 24 };
+    let k = if force_deep { 6 + r.usize_below(3) } else { 1 + r.usize_below(if short { 2 } else { 9 }) };
+    // (a) constructive: 0 <= q <= 23, c * 5^q odd with exactly mbits + 1 bits  => an exact tie (+- delta)
+    // (b) search: 135 <= q <= 300 (the large power-of-five step of the big integer), c small and odd
+    let deep = force_deep || (is_f64 && !short && r.chance(1, 2));
+    // keep the value finite: decimal digits of M (about 19.3 k + 5) + q <= 307
+    let qmax = 300u32.saturating_sub((19.3 * k as f64) as u32);
+    let mut c_q: Option<(Nat, u32)> = None;
+    if deep && qmax >= 136 {
+        for _ in 0..(if force_deep { 64 } else { 16 }) {
+            let c = (r.below(1 << 15) | 1) as u64;
+            let mut q = 135 + r.below((qmax - 135).min(40) as u64 + 1) as u32;
+            let mut p5 = Nat::pow_fast(5, q);
+            while q <= qmax {
+                let x = p5.mul_u64(c);
+                if near_halfway(&x, mbits, 12) {
+                    c_q = Some((Nat::from_u64(c), q));
+                    break;
+                }
+                p5 = p5.mul_u64(5);
+                q += 1;
+            }
+            if c_q.is_some() {
+                break;
+            }
+        }
+    }
+    let (c, q) = match c_q {
+        Some(v) => v,
+        None => {
+            let q = r.below(if is_f64 { 24 } else { 11 }) as u32;
+            let p5 = Nat::pow_fast(5, q);
+            // c odd with c * 5^q in [2^mbits, 2^(mbits+1))
+            let lo = Nat::from_u64(1).shl(mbits);
+            let mut c = 1u64;
+            let p5v = p5.to_u64().unwrap_or(u64::MAX);
+            if p5v < (1u64 << mbits) {
+                let cmin = ((1u64 << mbits) + p5v - 1) / p5v;
+                let cmax = ((1u64 << (mbits + 1)) - 1) / p5v;
+                if cmax >= cmin {
+                    c = (cmin + r.below(cmax - cmin + 1)) | 1;
+                    if c > cmax {
+                        c = cmax;
+                    }
+                }
+            }
+            let _ = lo;
+            (Nat::from_u64(c), q)
+        },
+    };
+    let base = c.shl(64 * k);
+    let delta = match r.below(6) {
+        0 | 1 => 0u64,
+        2 => 1 + r.below(9),
+        3 => r.below(1000),
+        _ => r.below(10_000_000_000_000_000_000),
+    };
+    let m = if r.chance(1, 2) || base.bit_length() < 70 {
+        base.add_u64(delta)
+    } else {
+        // base - delta: schoolbook via two's complement on limbs
+        let mut l = base.to_limbs64();
+        let mut borrow = delta;
+        for x in l.iter_mut() {
+            let (v, b) = x.overflowing_sub(borrow);
+            *x = v;
+            borrow = b as u64;
+            if borrow == 0 {
+                break;
+            }
+        }
+        Nat::from_limbs64(&l)
+    };
+    let mut digits = m.to_decimal();
+    let mut dec_exp = q as i64;
+    while digits.last() == Some(&b'0') && digits.len() > 1 {
+        digits.pop();
+        dec_exp += 1;
+    }
+    let d = Dec { digits, dec_exp };
+    let name = match (is_f64, q >= 135) {
+        (true, true) => "limb_boundary_deep_f64",
+        (true, false) => "limb_boundary_f64",
+        (false, true) => "limb_boundary_deep_f32",
+        (false, false) => "limb_boundary_f32",
+    };
+    if r.chance(2, 3) {
+        split_at(&d, usize::MAX, 0, name)
+    } else {
+        split(&d, r, name)
+    }
+}
+
 #[derive(Clone, Copy, Debug, PartialEq, Eq)]
 pub enum Mix {
     /// C16: everything
@@ -259,9 +381,9 @@ pub enum Mix {
 /// Draw one valid request.
 pub fn draw_input(r: &mut Rng, mix: Mix, is_f64_hint: bool, rare_huge: bool) -> Input {
     let fam = match mix {
-        Mix::Balanced => r.weighted(&[10, 12, 36, 14, 8, 6, 8, 6]),
-        Mix::AllocHeavy => r.weighted(&[4, 6, 54, 12, 4, 2, 10, 8]),
-        Mix::Short => r.weighted(&[15, 15, 50, 5, 10, 5, 0, 1]),
+        Mix::Balanced => r.weighted(&[10, 12, 34, 14, 8, 6, 8, 5, 5]),
+        Mix::AllocHeavy => r.weighted(&[4, 6, 50, 12, 4, 2, 10, 6, 6]),
+        Mix::Short => r.weighted(&[15, 15, 48, 5, 10, 5, 0, 1, 3]),
     };
     match fam {
         0 => {
@@ -364,6 +486,7 @@ pub fn draw_input(r: &mut Rng, mix: Mix, is_f64_hint: bool, rare_huge: bool) -> 
             }
             inp
         },
+        8 => limb_boundary(r, mix == Mix::Short),
         4 => {
             // extremes
             let n = 1 + r.usize_below(40);
